@@ -743,8 +743,12 @@ class FuncEmitter:
                             except Unsupported: pass
             if tyn is not None:
                 s.S(f"{D} = (char*)malloc(sizeof(struct {G.heap_struct(tyn)})); __CPROVER_assume({D} != 0); VP_NEW({D});")
-            else:
+            elif sz[0] == 'int':
                 s.S(f"{D} = (char*)malloc({A(0)}); __CPROVER_assume({D} != 0); VP_NEW({D});")
+            else:
+                # allocation of a symbolic size (vector growth): a fixed-size block, the request is assumed to fit
+                # (heap objects of symbolic size make every later access a byte-level formula; stated in DESIGN.md section 4)
+                s.S(f"__CPROVER_assume(({A(0)}) <= VP_DYN_ALLOC_MAX); {D} = (char*)malloc(VP_DYN_ALLOC_MAX); __CPROVER_assume({D} != 0); VP_NEW({D});")
             return
         if kind == 'yield':
             if s.thread and G.yield_blocks:
